@@ -1,10 +1,278 @@
-import EvoModel.Model.Rpe
-import EvoModel.Lemmas.Lin
+/-
+C02 — RPE values equal the definition over exactly the selected pose pairs.
+
+Model: `Model/Rpe.lean` (`rpeCore`, `rpe`, `rpePlan`), tied to `evo/core/metrics.py` (RPE),
+`evo/main_rpe.py` by `harness/props/C02.py` on every run.  The pair selection itself
+(`id_pairs_from_delta`) is property C10: `rpe` takes the selected pairs as an argument, and all
+statements here hold for an arbitrary pair list.
+-/
+import EvoModel.Lemmas.Metrics
+import EvoModel.Lemmas.MetricsReal
 namespace Evo.C02
 open Evo
 
+/-! ### one value per selected pair, ids aligned with values -/
+
+/-- all selected pairs survive, except zero reference distances under the ratio relation -/
+theorem rpe_kept (rel : PoseRelation) (ref : List (Pose Rat)) (pairs : List (Nat × Nat)) :
+    (rel ≠ .ratio → keptPairs rel ref pairs = pairs) ∧
+    (rel = .ratio → ∀ p, p.1 < ref.length → p.2 < ref.length →
+      (p ∈ keptPairs rel ref pairs ↔ p ∈ pairs ∧ refDistSq ref[p.1]! ref[p.2]! ≠ 0)) := by
+  constructor
+  · intro h; unfold keptPairs; rw [if_neg h]
+  · intro h p h1 h2
+    unfold keptPairs
+    rw [if_pos h, List.mem_filter]
+    simp only [List.getElem?_eq_getElem h1, List.getElem?_eq_getElem h2, decide_eq_true_eq,
+      getElem!_pos ref p.1 h1, getElem!_pos ref p.2 h2]
+
+/-- values and `delta_ids` have the same length -/
+theorem rpe_length_eq_delta_ids {rel : PoseRelation} {pairs : List (Nat × Nat)} {ref est : List (Pose Rat)}
+    {r : RpeResult} (h : rpe rel pairs ref est = .ok r) :
+    r.values.length = r.deltaIds.length ∧ r.values.length = (keptPairs rel ref pairs).length := by
+  obtain ⟨hl, hidx, _, rfl⟩ := rpe_ok_iff.mp h
+  have := rpe_values_eq_map rel hl hidx (keptPairs rel ref pairs) (fun p hp => (keptPairs_sublist rel ref pairs).subset hp)
+  simp only [this, List.length_map, and_self]
+
+/-- `delta_ids` are the end indices `j` of the surviving pairs, in the order of the pair list
+(also after the zero filter of the ratio relation) -/
+theorem rpe_delta_ids_are_pair_ends {rel : PoseRelation} {pairs : List (Nat × Nat)} {ref est : List (Pose Rat)}
+    {r : RpeResult} (h : rpe rel pairs ref est = .ok r) :
+    r.deltaIds = (keptPairs rel ref pairs).map Prod.snd ∧ (keptPairs rel ref pairs).Sublist pairs ∧
+      (rel ≠ .ratio → r.deltaIds = pairs.map Prod.snd) := by
+  obtain ⟨_, _, _, rfl⟩ := rpe_ok_iff.mp h
+  refine ⟨rfl, keptPairs_sublist rel ref pairs, fun hne => ?_⟩
+  simp only [(rpe_kept rel ref pairs).1 hne]
+
+/-- value `k` is the definition applied to the `k`-th surviving pair `(i, j)`:
+the relative motions `i → j` of reference and estimate -/
+theorem rpe_get {rel : PoseRelation} {pairs : List (Nat × Nat)} {ref est : List (Pose Rat)}
+    {r : RpeResult} (h : rpe rel pairs ref est = .ok r) (k : Nat) (hk : k < (keptPairs rel ref pairs).length) :
+    let p := (keptPairs rel ref pairs)[k]
+    r.values[k]? = some (rpeCore rel ref[p.1]! ref[p.2]! est[p.1]! est[p.2]!) ∧ r.deltaIds[k]? = some p.2 := by
+  obtain ⟨hl, hidx, _, rfl⟩ := rpe_ok_iff.mp h
+  intro p
+  have hmap := rpe_values_eq_map rel hl hidx (keptPairs rel ref pairs) (fun p hp => (keptPairs_sublist rel ref pairs).subset hp)
+  constructor
+  · simp only [hmap, List.getElem?_map, List.getElem?_eq_getElem hk, Option.map_some, p]
+  · simp only [List.getElem?_map, List.getElem?_eq_getElem hk, Option.map_some, p]
+
+/-- the definitions, relation by relation: `E = (Q_i⁻¹ Q_j)⁻¹ (P_i⁻¹ P_j)` reduced like APE; the
+point-distance relations compare the straight-line distances of the positions -/
+theorem rpeCore_definition (Qi Qj Pi Pj : Pose Rat) :
+    let E := Pose.rel (Pose.rel Qi Qj) (Pose.rel Pi Pj)
+    rpeCore .trans Qi Qj Pi Pj = .sqrt (V3.normSq E.t) ∧
+    rpeCore .rot Qi Qj Pi Pj = .sqrt (M3.frobSq (M3.sub E.rot M3.one)) ∧
+    rpeCore .full Qi Qj Pi Pj = .sqrt (M3.frobSq (M3.sub E.rot M3.one) + V3.normSq E.t) ∧
+    rpeCore .angleRad Qi Qj Pi Pj = .angle E.rot.angleCore.1 E.rot.angleCore.2 false ∧
+    rpeCore .angleDeg Qi Qj Pi Pj = .angle E.rot.angleCore.1 E.rot.angleCore.2 true ∧
+    rpeCore .pointDist Qi Qj Pi Pj = .sqrtDiff (V3.normSq (V3.sub Qi.t Qj.t)) (V3.normSq (V3.sub Pi.t Pj.t)) ∧
+    rpeCore .ratio Qi Qj Pi Pj = .sqrtRatio (V3.normSq (V3.sub Qi.t Qj.t)) (V3.normSq (V3.sub Pi.t Pj.t)) :=
+  ⟨rfl, rfl, rfl, rfl, rfl, rfl, rfl⟩
+
+/-- sequences of different length are refused -/
 theorem rpe_refuses_unequal (rel : PoseRelation) (pairs : List (Nat × Nat)) (ref est : List (Pose Rat))
     (h : ref.length ≠ est.length) : rpe rel pairs ref est = .error .unequal := by
-  unfold rpe; simp [h]
+  unfold rpe; rw [if_pos h]
+
+/-- the ratio relation skips exactly the pairs with reference distance zero — values and ids alike,
+the others keep their order -/
+theorem rpe_ratio_skips_exactly_zero_ref {pairs : List (Nat × Nat)} {ref est : List (Pose Rat)} {r : RpeResult}
+    (h : rpe .ratio pairs ref est = .ok r) :
+    r.deltaIds = (pairs.filter fun p => decide (refDistSq ref[p.1]! ref[p.2]! ≠ 0)).map Prod.snd ∧
+    r.values.length = (pairs.filter fun p => decide (refDistSq ref[p.1]! ref[p.2]! ≠ 0)).length := by
+  have hlen := (rpe_length_eq_delta_ids h).2
+  obtain ⟨_, hidx, _, rfl⟩ := rpe_ok_iff.mp h
+  have hk : keptPairs .ratio ref pairs = pairs.filter fun p => decide (refDistSq ref[p.1]! ref[p.2]! ≠ 0) := by
+    unfold keptPairs
+    rw [if_pos rfl]
+    apply List.filter_congr
+    intro p hp
+    have hp' := hidx p hp
+    simp only [List.getElem?_eq_getElem hp'.1, List.getElem?_eq_getElem hp'.2, getElem!_pos ref p.1 hp'.1,
+      getElem!_pos ref p.2 hp'.2]
+  rw [hk] at hlen ⊢
+  exact ⟨rfl, hlen⟩
+
+/-! ### drift independence and zero -/
+
+/-- arbitrary, different rigid motions of reference and estimate change no value -/
+theorem rpe_invariant_separate_motions (rel : PoseRelation) (Tq Tp Qi Qj Pi Pj : Pose Rat)
+    (hq : IsRigid Tq) (hp : IsRigid Tp) :
+    rpeCore rel (Tq.mul Qi) (Tq.mul Qj) (Tp.mul Pi) (Tp.mul Pj) = rpeCore rel Qi Qj Pi Pj :=
+  rpeCore_separate_motions rel hq hp Qi Qj Pi Pj
+
+/-- … for whole trajectories and any pair list, including refusals and the zero filter -/
+theorem rpe_invariant_separate_motions_list (rel : PoseRelation) (Tq Tp : Pose Rat) (hq : IsRigid Tq)
+    (hp : IsRigid Tp) (pairs : List (Nat × Nat)) (ref est : List (Pose Rat)) :
+    rpe rel pairs (ref.map Tq.mul) (est.map Tp.mul) = rpe rel pairs ref est := by
+  have hpp : ∀ p, pairPoses (ref.map Tq.mul) (est.map Tp.mul) p
+      = (pairPoses ref est p).map fun (qi, qj, pi, pj) => (Tq.mul qi, Tq.mul qj, Tp.mul pi, Tp.mul pj) := by
+    intro p
+    simp only [pairPoses, List.getElem?_map]
+    cases ref[p.1]? <;> cases ref[p.2]? <;> cases est[p.1]? <;> cases est[p.2]? <;> rfl
+  have hcore : ∀ p, pairCore rel (ref.map Tq.mul) (est.map Tp.mul) p = pairCore rel ref est p := by
+    intro p
+    simp only [pairCore, hpp, Option.map_map]
+    congr 1
+    funext ⟨qi, qj, pi, pj⟩
+    exact rpeCore_separate_motions rel hq hp qi qj pi pj
+  have hrots : rpeRots (ref.map Tq.mul) (est.map Tp.mul) pairs = rpeRots ref est pairs := by
+    unfold rpeRots
+    congr 1
+    funext p
+    simp only [hpp, Option.map_map]
+    congr 1
+    funext ⟨qi, qj, pi, pj⟩
+    simp only [Function.comp, rpeBase, Pose.rel_left_invariant Tq qi qj hq, Pose.rel_left_invariant Tp pi pj hp]
+  have hkept : keptPairs rel (ref.map Tq.mul) pairs = keptPairs rel ref pairs := by
+    unfold keptPairs
+    split
+    · apply List.filter_congr
+      intro p _
+      simp only [List.getElem?_map]
+      cases ref[p.1]? <;> cases ref[p.2]? <;> simp only [Option.map_some, Option.map_none, refDistSq_mul_left hq]
+    · rfl
+  unfold rpe
+  simp only [hrots, hkept, List.length_map, funext hcore]
+
+/-- the same relative motions give error zero -/
+theorem rpe_zero_of_same_relative_motion (rel : PoseRelation) (Qi Qj Pi Pj : Pose Rat)
+    (hQi : IsRigid Qi) (hQj : IsRigid Qj) (hPi : IsRigid Pi) (h : Qi.rel Qj = Pi.rel Pj) :
+    (rpeCore rel Qi Qj Pi Pj).IsZero :=
+  rpeCore_same_relative_motion rel hQi hQj hPi h
+
+/-- in particular when the estimate is the reference moved by one rigid motion -/
+theorem rpe_zero_of_moved_copy (rel : PoseRelation) (T Qi Qj : Pose Rat) (hT : IsRigid T)
+    (hQi : IsRigid Qi) (hQj : IsRigid Qj) : (rpeCore rel Qi Qj (T.mul Qi) (T.mul Qj)).IsZero :=
+  rpeCore_same_relative_motion rel hQi hQj (IsRigid.mul hT hQi) (Pose.rel_left_invariant T Qi Qj hT).symm
+
+/-- the laws for the reported real numbers (ℝ-valued poses) -/
+theorem rpe_value_real_laws (rel : PoseRelation) (Tq Tp Qi Qj Pi Pj : Pose ℝ) (hq : IsRigid Tq) (hp : IsRigid Tp)
+    (hQi : IsRigid Qi) (hQj : IsRigid Qj) :
+    (rpeCore rel (Tq.mul Qi) (Tq.mul Qj) (Tp.mul Pi) (Tp.mul Pj)).value = (rpeCore rel Qi Qj Pi Pj).value ∧
+    (rpeCore rel Qi Qj (Tp.mul Qi) (Tp.mul Qj)).value = 0 ∧ 0 ≤ (rpeCore rel Qi Qj Pi Pj).value :=
+  ⟨by rw [rpeCore_separate_motions rel hq hp],
+   Core.value_of_isZero (rpeCore_same_relative_motion rel hQi hQj (IsRigid.mul hp hQi)
+     (Pose.rel_left_invariant Tp Qi Qj hp).symm),
+   Core.value_nonneg _⟩
+
+/-- casting the rational core to ℝ is the core of the cast poses -/
+theorem rpe_core_cast (rel : PoseRelation) (Qi Qj Pi Pj : Pose Rat) :
+    (rpeCore rel Qi Qj Pi Pj).map (fun q : Rat => (q : ℝ))
+      = rpeCore rel (Qi.map (fun q : Rat => (q : ℝ))) (Qj.map (fun q : Rat => (q : ℝ)))
+          (Pi.map (fun q : Rat => (q : ℝ))) (Pj.map (fun q : Rat => (q : ℝ))) :=
+  rpeCore_map_cast rel Qi Qj Pi Pj
+
+/-! ### evo_rpe: option → step wiring -/
+
+theorem rpePlan_order (o : RpeOpts) (steps : List Step) (h : rpePlan o = .ok steps) :
+    (steps.map Step.rank).Pairwise (· < ·) := by
+  obtain ⟨pre, hp, rfl⟩ := rpePlan_ok_iff.mp h
+  obtain ⟨hs, hlt⟩ := prePlan_sorted hp
+  simp only [List.map_append, List.pairwise_append, List.mem_append, List.mem_map, List.map_cons, List.map_nil,
+    List.mem_singleton]
+  refine ⟨⟨⟨hs, List.pairwise_singleton _ _, ?_⟩, pairwise_rank_single _ (length_unitPart o.common), ?_⟩,
+    List.pairwise_singleton _ _, ?_⟩
+  · rintro a ⟨s, hs, rfl⟩ b rfl
+    exact hlt s hs
+  · rintro a (⟨s, hs, rfl⟩ | rfl) b ⟨t, ht, rfl⟩ <;> rw [rank_unitPart ht]
+    · exact Nat.lt_trans (hlt s hs) (by decide)
+    · simp [Step.rank]
+  · rintro a ((⟨s, hs, rfl⟩ | rfl) | ⟨s, hs, rfl⟩) b rfl
+    · exact Nat.lt_trans (hlt s hs) (by decide)
+    · simp [Step.rank]
+    · rw [rank_unitPart hs]; decide
+
+/-- the metric is computed with the options as given, the stored trajectories are reduced to pose 0 and
+the pair ends as the very last step (after the unit change) -/
+theorem rpePlan_reduces_to_first_and_pair_ends (o : RpeOpts) (steps : List Step) (h : rpePlan o = .ok steps) :
+    steps.getLast? = some .reduceToFirstAndPairEnds ∧
+    Step.metricRpe o.common.rel o.delta o.deltaUnit o.deltaTol o.allPairs o.pairsFromReference ∈ steps ∧
+    (∀ r d u t a f, Step.metricRpe r d u t a f ∈ steps →
+      r = o.common.rel ∧ d = o.delta ∧ u = o.deltaUnit ∧ t = o.deltaTol ∧ a = o.allPairs ∧ f = o.pairsFromReference) := by
+  obtain ⟨pre, hp, rfl⟩ := rpePlan_ok_iff.mp h
+  refine ⟨List.getLast?_concat .., by simp, ?_⟩
+  intro r d u t a f hm
+  simp only [List.mem_append, List.mem_singleton] at hm
+  rcases hm with ((hm | hm) | hm) | hm
+  · have := (prePlan_sorted hp).2 _ hm; simp [Step.rank] at this
+  · injection hm with h1 h2 h3 h4 h5 h6; exact ⟨h1, h2, h3, h4, h5, h6⟩
+  · have := rank_unitPart hm; simp [Step.rank] at this
+  · cases hm
+
+theorem rpePlan_align (o : RpeOpts) (steps : List Step) (h : rpePlan o = .ok steps) (k : AlignKind) (n : Int) :
+    Step.align k n ∈ steps ↔ alignKind o.common.align o.common.correctScale = some k ∧ n = o.common.nToAlign := by
+  obtain ⟨pre, hp, rfl⟩ := rpePlan_ok_iff.mp h
+  rw [List.append_assoc, List.append_assoc, mem_of_rank_lt (rpeTail_rank o) (by simp [Step.rank])]
+  exact mem_pre_align_iff hp
+
+theorem rpePlan_onlyScale (o : RpeOpts) (steps : List Step) (h : rpePlan o = .ok steps) (n : Int) :
+    Step.align .scaleOnly n ∈ steps ↔ (o.common.correctScale = true ∧ o.common.align = false) ∧ n = o.common.nToAlign := by
+  rw [rpePlan_align o steps h]
+  have : alignKind o.common.align o.common.correctScale = some .scaleOnly ↔
+      (o.common.correctScale = true ∧ o.common.align = false) := by
+    cases o.common.align <;> cases o.common.correctScale <;> decide
+  rw [this]
+
+theorem rpePlan_crop (o : RpeOpts) (steps : List Step) (h : rpePlan o = .ok steps) (s e : Option Rat) :
+    Step.cropRef s e ∈ steps ↔ o.common.hasStamps = true ∧
+      (o.common.tStart.isSome = true ∨ o.common.tEnd.isSome = true) ∧ s = o.common.tStart ∧ e = o.common.tEnd := by
+  obtain ⟨pre, hp, rfl⟩ := rpePlan_ok_iff.mp h
+  rw [List.append_assoc, List.append_assoc, mem_of_rank_lt (rpeTail_rank o) (by simp [Step.rank])]
+  exact mem_pre_crop_iff hp
+
+theorem rpePlan_crop_on_ref_before_associate (o : RpeOpts) (steps l₁ l₂ : List Step) (m f : Rat)
+    (h : rpePlan o = .ok steps) (e : steps = l₁ ++ Step.associate m f :: l₂) :
+    (∀ s t, Step.cropRef s t ∉ l₂) ∧ (∀ n, Step.downsample n ∉ l₂) ∧ (∀ d a, Step.motionFilter d a ∉ l₂) ∧
+      m = o.common.tMaxDiff ∧ f = o.common.tOffset := by
+  have hs := rpePlan_order o steps h
+  refine ⟨fun s t hm => ?_, fun n hm => ?_, fun d a hm => ?_, ?_⟩
+  · have := rank_lt_of_split hs e hm; simp [Step.rank] at this
+  · have := rank_lt_of_split hs e hm; simp [Step.rank] at this
+  · have := rank_lt_of_split hs e hm; simp [Step.rank] at this
+  · obtain ⟨pre, hp, rfl⟩ := rpePlan_ok_iff.mp h
+    have hm : Step.associate m f ∈ pre ++ [Step.metricRpe o.common.rel o.delta o.deltaUnit o.deltaTol o.allPairs
+        o.pairsFromReference] ++ unitPart o.common ++ [Step.reduceToFirstAndPairEnds] := by rw [e]; simp
+    rw [List.append_assoc, List.append_assoc, mem_of_rank_lt (rpeTail_rank o) (by simp [Step.rank])] at hm
+    exact ((mem_pre_associate_iff hp).mp hm).2
+
+theorem rpePlan_project_after_align (o : RpeOpts) (steps l₁ l₂ : List Step) (p : Plane)
+    (h : rpePlan o = .ok steps) (e : steps = l₁ ++ Step.project p :: l₂) :
+    (∀ k n, Step.align k n ∉ l₂) ∧ Step.alignOrigin ∉ l₂ ∧ (∀ m f, Step.associate m f ∉ l₂) := by
+  have hs := rpePlan_order o steps h
+  refine ⟨fun k n hm => ?_, fun hm => ?_, fun m f hm => ?_⟩
+  · have := rank_lt_of_split hs e hm; simp [Step.rank] at this
+  · have := rank_lt_of_split hs e hm; simp [Step.rank] at this
+  · have := rank_lt_of_split hs e hm; simp [Step.rank] at this
+
+/-! ### non-vacuity -/
+
+def rz : M3 Rat := ⟨0, -1, 0, 1, 0, 0, 0, 0, 1⟩
+def q0 : Pose Rat := ⟨M3.one, ⟨0, 0, 0⟩⟩
+def q1 : Pose Rat := ⟨rz, ⟨3, 4, 0⟩⟩
+def q2 : Pose Rat := ⟨rz, ⟨3, 4, 0⟩⟩       -- stationary: same position as q1
+def q3 : Pose Rat := ⟨rz, ⟨3, 4, 12⟩⟩
+def p0 : Pose Rat := ⟨M3.one, ⟨0, 0, 0⟩⟩
+def p1 : Pose Rat := ⟨rz, ⟨6, 8, 0⟩⟩
+def p2 : Pose Rat := ⟨M3.one, ⟨6, 8, 1⟩⟩
+def p3 : Pose Rat := ⟨rz, ⟨6, 8, 13⟩⟩
+
+example : IsRigid q1 ∧ IsRigid p2 := by constructor <;> (unfold IsRigid IsOrtho; decide +kernel)
+example : rpe .pointDist [(0, 1), (1, 2), (2, 3)] [q0, q1, q2, q3] [p0, p1, p2, p3]
+    = .ok ⟨[.sqrtDiff 25 100, .sqrtDiff 0 1, .sqrtDiff 144 144], [1, 2, 3]⟩ := by decide +kernel
+/-- the stationary reference pair (1, 2) is skipped by the ratio relation, values and ids alike -/
+example : rpe .ratio [(0, 1), (1, 2), (2, 3)] [q0, q1, q2, q3] [p0, p1, p2, p3]
+    = .ok ⟨[.sqrtRatio 25 100, .sqrtRatio 144 144], [1, 3]⟩ := by decide +kernel
+example : rpe .rot [(1, 2)] [q0, q1, q2, q3] [p0, p1, p2, p3] = .ok ⟨[.sqrt 4], [2]⟩ := by decide +kernel
+example : rpe .trans [(0, 1)] [q0, q1] [p0] = .error .unequal := by decide +kernel
+example : rpe .trans [(0, 5)] [q0, q1] [p0, p1] = .error .badIndex := by decide +kernel
+example : rpeCore .full (q1.mul q0) (q1.mul q3) (p2.mul p1) (p2.mul p3) = rpeCore .full q0 q3 p1 p3 := by
+  decide +kernel
+
+def optsR : RpeOpts :=
+  ⟨⟨true, none, none, none, some 0, 1/100, 1/2, true, true, -1, false, none, .ratio, none⟩, 1, .frames, 1/10, false, true⟩
+example : rpePlan optsR = .ok [.cropRef none (some 0), .associate (1/100) (1/2), .align .sim3 (-1),
+    .metricRpe .ratio 1 .frames (1/10) false true, .reduceToFirstAndPairEnds] := by decide +kernel
 
 end Evo.C02
